@@ -2,6 +2,7 @@
 written as a `from_spec` structure."""
 import itertools
 import json
+import re
 
 from mc import terms as T
 from mc.enc import fresh
@@ -59,16 +60,131 @@ def type_spellings(a):
     return None
 
 
+_PATH_TOKEN = re.compile("path", re.IGNORECASE)
+
+
+def esc_key(k):
+    r"""The escaped spelling of a literal mapping key: a backslash before every 'path' (any letter case)."""
+    return _PATH_TOKEN.sub(lambda m: "\\" + m.group(), k) if isinstance(k, str) else k
+
+
+def _has_path_key(d):
+    return any(isinstance(k, str) and _PATH_TOKEN.search(k) for k in d)
+
+
+def _must_escape(d):
+    """A literal mapping that would otherwise be read as a data path (one key whose first dot-delimited token is
+    'path'), or that has a key containing the escape code itself."""
+    if any(isinstance(k, str) and re.search(r"\\path", k, re.IGNORECASE) for k in d):
+        return True
+    if len(d) == 1:
+        k = next(iter(d))
+        return isinstance(k, str) and k.split(".")[0].lower() == "path"
+    return False
+
+
+def _has_path_arg(x):
+    if T.is_path_arg(x):
+        return True
+    if isinstance(x, (list, tuple)):
+        return any(_has_path_arg(i) for i in x)
+    if isinstance(x, dict):
+        return any(_has_path_arg(v) for v in x.values())
+    return False
+
+
+def lit_map_spec(d, escape=None, level=0):
+    """Spec spelling of a literal mapping at a place where the parser looks for data-path specs: level 0 = an
+    argument, level 1 = an item of a list argument / a value of a mapping argument.  With an escaped key the whole
+    mapping is taken literally (keys un-escaped, values verbatim); escape=None: escape when required, or when some
+    key contains 'path' and no value is a path argument."""
+    if escape is None:
+        escape = _must_escape(d) or (_has_path_key(d) and not _has_path_arg(d))
+    if escape:
+        return {esc_key(k): arg_spec_inner(v) for k, v in d.items()}
+    if level >= 1:
+        return arg_spec_inner(d)
+    # an argument with no escaped key: its values are looked at in turn (one level)
+    return {k: _level1(v) for k, v in d.items()}
+
+
+def item_spec(v):
+    """Spelling of one argument that is an item of the spec value (argument list / keyword mapping)."""
+    return _level1(v)
+
+
+def _level1(v):
+    if T.is_path_arg(v):
+        return path_spec(v[1])
+    if isinstance(v, dict):
+        return lit_map_spec(v, level=1)
+    return arg_spec_inner(v)
+
+
+def arg_spec_inner(a):
+    """Below the places the parser looks at: verbatim."""
+    if isinstance(a, list):
+        return [arg_spec_inner(i) for i in a]
+    if isinstance(a, tuple):
+        return tuple(arg_spec_inner(i) for i in a)
+    if isinstance(a, dict):
+        return {k: arg_spec_inner(v) for k, v in a.items()}
+    return a
+
+
+def lit_map_variants(d, level=0):
+    """Every spelling of a literal mapping: each non-empty subset of its 'path'-containing keys escaped (one escaped
+    key makes the whole mapping literal), and none escaped where that is allowed."""
+    ks = [k for k in d if isinstance(k, str) and _PATH_TOKEN.search(k)]
+    out = []
+    if not ks:
+        return [lit_map_spec(d, level=level)]
+    literal_backslash = any(re.search(r"\\path", k, re.IGNORECASE) for k in ks)
+    for n in range(len(ks), 0, -1):
+        for sub in itertools.combinations(ks, n):
+            if literal_backslash and n != len(ks):
+                continue
+            out.append({(esc_key(k) if k in sub else k): fresh(v) for k, v in d.items()})
+    if not _must_escape(d):
+        out.append(lit_map_spec(d, escape=False, level=level))
+    return out
+
+
+# literal mapping arguments with 'path' among their keys: alone / first / in the middle / last, in other letter
+# cases, with modifiers, twice, with the escape code itself in a literal key, one level down
+LITMAPS = [{"path": ["b"]}, {"name": "x", "path": ["b"]}, {"path": ["b"], "name": "x"},
+           {"n": 1, "Path.length": ["b"], "z": 2}, {"path": ["a"], "path.first": ["b"]}, {"\\path": ["b"], "k": 1},
+           {"q": {"path": ["b"]}}, {"pathological": 1}, {"a": {"path": ["b"]}, "path": 1}, {"k": 1, "PATH": {"path": ["b"]}}]
+
+
+def litmap_cases():
+    """(term, spec) for every literal mapping of LITMAPS in every argument position the parser inspects x every
+    escaped / unescaped spelling of it."""
+    out = []
+    for lit in LITMAPS:
+        for v in lit_map_variants(lit, 0):
+            out.append((T.leaf("Value", "equal_to", lit), {"value.equal_to": v}))
+            out.append((T.leaf("Value", "not_equal_to", lit), {"VALUE.Not_Equal_To": v}))
+        for v in lit_map_variants(lit, 1):
+            out.append((T.leaf("Value", "in_", [lit, 1]), {"value.in": [v, 1]}))
+            out.append((T.leaf("Value", "in_", [0, lit]), {"value.in_": (0, v)}))
+            out.append((T.leaf("Value", "items_contain", q=lit), {"value.items_contain": {"q": v}}))
+            out.append((T.leaf("Value", "items_contain", p=1, q=lit), {"value.items_contain": {"p": 1, "q": v}}))
+            out.append((T.leaf("Value", "equal_to_approx", value=lit), {"value.equal_to_approx": {"value": v}}))
+    return out
+
+
 def arg_spec(a):
-    """A literal argument as it appears in a spec (path-valued arguments as {'path..': parts})."""
+    """A literal argument as it appears in a spec (path-valued arguments as {'path..': parts}; literal mappings
+    that look like a data path escaped)."""
     if T.is_path_arg(a):
         return path_spec(a[1])
     if isinstance(a, list):
-        return [arg_spec(i) for i in a]
+        return [_level1(i) for i in a]
     if isinstance(a, tuple):
-        return tuple(arg_spec(i) for i in a)
+        return tuple(_level1(i) for i in a)
     if isinstance(a, dict):
-        return {k: arg_spec(v) for k, v in a.items()}
+        return lit_map_spec(a)
     return a
 
 
@@ -104,8 +220,9 @@ def value_spellings(t, type_names):
     type_names: whether type arguments may be written as names (dtype classes, *is_instance)."""
     _, cls, call, args, kwargs = t
     kind, names = T.SIG[call]
-    args = [arg_spec(a) for a in args]
-    kw = [(k, arg_spec(v)) for k, v in kwargs]
+    sp = arg_spec if kind == "one" else item_spec      # the sole argument / an item of the argument list or mapping
+    args = [sp(a) for a in args]
+    kw = [(k, sp(v)) for k, v in kwargs]
     variants = _type_variants(args) if type_names else [list(args)]
     out = []
     if kind == "none":
@@ -138,8 +255,9 @@ def cond_spec(t, key=None, value=None):
         key = "%s.%s" % (T.SPEC_LABEL[cls], call)
     if value is None:
         kind, names = T.SIG[call]
-        a = [arg_spec(x) for x in args]
-        kw = {k: arg_spec(v) for k, v in kwargs}
+        sp = arg_spec if kind == "one" else item_spec
+        a = [sp(x) for x in args]
+        kw = {k: sp(v) for k, v in kwargs}
         if kind == "none":
             value = None
         elif kind == "one":
